@@ -8,7 +8,9 @@
   real function produces in CPython, and the contract's clauses evaluated natively must
   hold on them (a clause that fails natively on the unchanged tree is either a defect of
   the code or of the contract - never silently ignored)."""
+import enum
 import math
+import types
 import random
 import warnings
 from fractions import Fraction
@@ -137,6 +139,85 @@ def find_witnesses(task, seed, want=3, tries=400):
     return out, ns
 
 
+
+def _map_floats(v, fn, memo=None):
+    """deep copy of a native value with fn applied to every float leaf"""
+    if memo is None:
+        memo = {}
+    if isinstance(v, bool) or v is None or isinstance(v, (int, str, Fraction)):
+        return v
+    if isinstance(v, float):
+        return fn(v)
+    if id(v) in memo:
+        return memo[id(v)]
+    if isinstance(v, tuple) and hasattr(v, '_fields'):
+        return type(v)(*[_map_floats(x, fn, memo) for x in v])
+    if isinstance(v, tuple):
+        return tuple(_map_floats(x, fn, memo) for x in v)
+    if isinstance(v, list):
+        out = []
+        memo[id(v)] = out
+        out.extend(_map_floats(x, fn, memo) for x in v)
+        return out
+    if isinstance(v, dict):
+        out = {}
+        memo[id(v)] = out
+        for k, x in v.items():
+            out[k] = _map_floats(x, fn, memo)
+        return out
+    if isinstance(v, (type, types.FunctionType, types.ModuleType)) or isinstance(v, enum.Enum):
+        return v
+    if hasattr(v, '__dict__'):
+        try:
+            o = object.__new__(type(v))
+        except Exception:  # noqa
+            return v
+        memo[id(v)] = o
+        for k, x in vars(v).items():
+            object.__setattr__(o, k, _map_floats(x, fn, memo))
+        return o
+    return v
+
+
+def native_value_agree(a, b, tol=1e-7):
+    """two native results agree (numbers to tol, containers and objects structurally)"""
+    if isinstance(a, bool) or isinstance(b, bool) or a is None or b is None or isinstance(a, str):
+        return a == b
+    if isinstance(a, (int, float, Fraction)) and isinstance(b, (int, float, Fraction)):
+        x, y = float(a), float(b)
+        if math.isnan(x) or math.isnan(y):
+            return math.isnan(x) and math.isnan(y)
+        return abs(x - y) <= tol * max(1.0, abs(x), abs(y))
+    if isinstance(a, (list, tuple)) and isinstance(b, (list, tuple)):
+        return len(a) == len(b) and all(native_value_agree(x, y, tol) for x, y in zip(a, b))
+    if isinstance(a, dict) and isinstance(b, dict):
+        return a.keys() == b.keys() and all(native_value_agree(a[k], b[k], tol) for k in a)
+    if hasattr(a, '__dict__') and hasattr(b, '__dict__') and type(a) is type(b):
+        return all(native_value_agree(x, vars(b).get(k), tol) for k, x in vars(a).items())
+    try:
+        return a == b
+    except Exception:  # noqa
+        return False
+
+
+def ill_conditioned(task, args, ns, kind, val, tol=1e-7):
+    """is the REAL function itself so sensitive at this witness that a binary64 run and an exact (A-REAL) run cannot
+    be compared?  The native function is re-run on inputs perturbed by a relative 1e-13 (a few hundred ulps); if
+    its own result moves by more than the comparison tolerance (or its outcome kind changes) the witness says
+    nothing about the engine and is skipped."""
+    rng = random.Random(12345)
+    for _ in range(2):
+        try:
+            pargs = _map_floats(args, lambda x: x * (1.0 + rng.choice((-1, 1)) * 1e-13))
+            k2, v2 = native_run(task, pargs, ns)
+        except Exception:  # noqa
+            return False
+        if k2 != kind:
+            return True
+        if kind == 'return' and not native_value_agree(val, v2, tol):
+            return True
+    return False
+
 def values_agree(ev_val, nat, tol=1e-7):
     """engine value vs native python value"""
     if isinstance(ev_val, SOpaque):
@@ -262,6 +343,10 @@ def cross_check(task_factory, seed, want=3):
         try:
             ekind, eval_, etask = engine_run_concrete(task_factory, ev)
         except EngineError as e:
+            if 'unrolling bound exceeded' in str(e):
+                # the concrete run of a loop is longer than the interpreter's budget: witness skipped, not a mismatch
+                res.setdefault('skipped_witnesses', []).append('concrete loop longer than the interpreter budget')
+                continue
             res['mismatches'].append({'inputs': repr(old_args)[:300], 'engine': f'EngineError: {e}', 'native': kind})
             continue
         res['checked'] += 1
@@ -273,6 +358,12 @@ def cross_check(task_factory, seed, want=3):
         else:
             ok = isinstance(val, eval_) if isinstance(eval_, type) else False
         if not ok:
+            if ill_conditioned(task, old_args, ns, kind, val):
+                # binary64 vs exact arithmetic at an ill-conditioned input (A-REAL), not an engine/CPython disagreement
+                res['checked'] -= 1
+                res.setdefault('skipped_witnesses', []).append('ill-conditioned input: the native result moves by more '
+                                                               'than the tolerance under a 1e-13 relative perturbation')
+                continue
             res['mismatches'].append({'inputs': repr(old_args)[:300], 'engine': f'{ekind}: {eval_!r}'[:200],
                                       'native': f'{kind}: {val!r}'[:200]})
             continue
